@@ -584,6 +584,14 @@ func (e *Exec) wf(v Val) {
 	if v.Typ == nil {
 		return
 	}
+	if n, ok := v.Typ.(*types.Named); ok && n.Obj().Pkg() != nil && e.specDepth == 0 && e.pure == 0 {
+		if fs := e.eng.specs["typeinv:"+n.Obj().Pkg().Path()+"."+n.Obj().Name()]; fs != nil {
+			for _, c := range fs.Clauses {
+				e.s.assert(e.evalSpec(e.eng.ld.specFunc(fs, c), []Val{v}, e.curHeap(), nil))
+				e.eng.assumes["type invariant of "+n.Obj().Pkg().Path()+"."+n.Obj().Name()+" assumed: "+c.Text] = true
+			}
+		}
+	}
 	switch u := v.Typ.Underlying().(type) {
 	case *types.Basic:
 		if u.Info()&types.IsString != 0 && !e.s.opaque {
@@ -1354,4 +1362,12 @@ func (o *Obligation) callResult(model map[string]string, keySuffix string, k, re
 func (e *Exec) newAlloc() string {
 	e.allocN++
 	return fmt.Sprintf("(- %d)", e.allocN)
+}
+
+// curHeap: type invariants only speak about the value itself; an empty heap view suffices.
+func (e *Exec) curHeap() *Heap {
+	if e.preHeap != nil {
+		return e.preHeap.clone()
+	}
+	return &Heap{m: map[string]string{}}
 }
